@@ -16,14 +16,24 @@ def tsan_pass(chk, res, tier, seed, prop="C06", sub="freerun", count_quick=40, c
     st = os.path.join(d, "stats.json")
     env = chk.child_env()
     env["TSAN_OPTIONS"] = "exitcode=96:halt_on_error=1:report_signal_unsafe=0"
-    p = subprocess.run([tsan, "--replay-dir", d, "--stats", st, "--verif-dir", chk.VERIF], stdout=subprocess.PIPE,
-                       stderr=subprocess.PIPE, text=True, env=env)
-    if os.path.exists(st):
-        res.merge_stats(json.load(open(st)))
+    # the emitted cases are replayed by several ThreadSanitizer processes (every k-th file each); in the thorough tier each
+    # stops opening cases after its wall budget (the count actually replayed is what the evidence reports)
+    shards = 8 if tier == "thorough" else 4
+    budget = os.environ.get("VERIF_THOROUGH_BUDGET_S", "900") if tier == "thorough" else "0"
+    procs = []
+    for k in range(shards):
+        stk = st + ".%d" % k
+        procs.append((subprocess.Popen([tsan, "--replay-dir", d, "--stats", stk, "--verif-dir", chk.VERIF, "--shard", "%d/%d" % (k, shards), "--budget", budget],
+                                       stdout=subprocess.PIPE, stderr=subprocess.PIPE, text=True, env=env), stk))
+    lines = []; replayed = 0
+    for pr, stk in procs:
+        o, e = pr.communicate(); lines += o.splitlines()
+        if os.path.exists(stk):
+            sj = json.load(open(stk)); res.merge_stats(sj); replayed += sum(x.get("evaluations", 0) for x in sj.get("subs", []))
     rdir = os.path.join(chk.VERIF, "evidence", "replay")
     os.makedirs(rdir, exist_ok=True)
     import re
-    for line in p.stdout.splitlines():
+    for line in lines:
         m = re.match(r"FAIL (\S+) replay=(\S+) msg=(.*)", line)
         if m:
             keep = os.path.join(rdir, "%s-tsan-%s" % (prop, os.path.basename(m.group(2))))
@@ -35,7 +45,8 @@ def tsan_pass(chk, res, tier, seed, prop="C06", sub="freerun", count_quick=40, c
                 hits += r.returncode == 1
             if hits >= 1:
                 res.violations.append((keep, "ThreadSanitizer: " + m.group(3)))
-    res.extra["tsan_cases"] = len([f for f in os.listdir(d) if f.endswith(".case")])
+    res.extra["tsan_cases_emitted"] = len([f for f in os.listdir(d) if f.endswith(".case")])
+    res.extra["tsan_cases"] = replayed
     shutil.rmtree(d, ignore_errors=True)
 
 
